@@ -5,16 +5,19 @@ the same way but with rewards enabled; every operation is applied to both.
 
 ```
 begin hcfg <build: default|optimism> <flavor: mainnet|optimism> <SPEC> <reward 0|1> <coinbase balance hex>
-hcfg spec <SPEC> | bspec <SPEC> | app <reg> | bapp <reg> | pop | generic <SPEC> | gendrop <SPEC> | rebuild
+hcfg-build <default|optimism>                                  (first line of a request file)
+hcfg spec <SPEC> | hspec <SPEC> | bspec <SPEC> | app <reg> | bapp <reg> | pop | generic <SPEC> | gendrop <SPEC> | rebuild
 hcfg reset | new | resetdb | boptimism                       (explicit resets)
 hcfg tx <xfer|tocb|self|call> <gas_limit> <gas_price> <prio|-> <basefee> <value> <used> <l1|->
 ```
-registers: `noop` `insp` `itab` (neutral), `opt0` `opt1` (optimism build), `setm` `clr` (user registers
-that assign the reward slot). State reply: `spec=<SPEC> opt=<b> regs=<n> rw=<b> trw=<b>`. -/
+registers: `noop` `insp` `itab` (neutral), `opt0` `opt1` (optimism build), `setm` `clr` `tgl` (user registers
+that assign / clear / toggle the reward slot). State reply: `spec=<SPEC> opt=<b> regs=<n> rw=<b> trw=<b>`. -/
 namespace Driver.HandlerCfg
 open Revm Revm.Hex Revm.Model.HandlerCfg
 
 structure St where
+  /-- which binary answers this request file (`hcfg-build` line): `some true` = optimism build -/
+  binary : Option Bool := none
   active : Bool := false
   optBuild : Bool := false
   h : Handler := mainnetWithSpec .LATEST true
@@ -43,6 +46,7 @@ def parseReg (optBuild : Bool) (s : String) : Option Register :=
   | "opt1" => if optBuild then some (.optimism true) else none
   | "setm" => some (.generic 0 (fun _ => some .mainnet))
   | "clr" => some (.generic 1 (fun _ => none))
+  | "tgl" => some (.generic 2 (fun r => if r.isSome then none else some .mainnet))
   | _ => none
 
 def stateLine (st : St) : String :=
@@ -52,7 +56,16 @@ def both (st : St) (op : Op) : St × String :=
   let st' := { st with h := step st.h op, t := step st.t op }
   (st', stateLine st')
 
-def begin (toks : List String) : St × String :=
+/-- `hcfg-build <default|optimism>`: the first such line names the answering binary -/
+def buildLine (st : St) (toks : List String) : St × String :=
+  let b? : Option Bool := match toks with
+    | ["default"] => some false | ["optimism"] => some true | _ => none
+  match st.binary, b? with
+  | none, some b => ({ st with binary := some b }, "ok")
+  | some cur, some b => (st, if cur == b then "ok" else "other-binary")
+  | _, none => (st, "other-binary")
+
+def beginCase (toks : List String) : St × String :=
   match toks with
   | [build, flavor, spec, rw, cb0] =>
     match (if build = "default" then some false else if build = "optimism" then some true else none),
@@ -71,6 +84,13 @@ def begin (toks : List String) : St × String :=
         else ({}, "bad-op")
     | _, _, _ => ({}, "bad-op")
   | _ => ({}, "bad-op")
+
+/-- a case tagged `optimism` cannot be executed by the default binary -/
+def begin (old : St) (toks : List String) : St × String :=
+  let (st, out) := beginCase toks
+  let st := { st with binary := old.binary }
+  if st.active && st.optBuild && old.binary == some false then ({ binary := old.binary }, "wrong-build")
+  else (st, out)
 
 def db (st : St) : Db := fun a =>
   if a = CALLER then ⟨10 ^ 30, 0, false⟩
@@ -131,6 +151,8 @@ def handle (st : St) (toks : List String) : St × String :=
   if !st.active then (st, "bad-op") else
   match toks with
   | ["spec", s] => match parseSpec st.optBuild s with
+    | some s => both st (.modifySpecId s) | none => (st, "bad-op")
+  | ["hspec", s] => match parseSpec st.optBuild s with
     | some s => both st (.modifySpecId s) | none => (st, "bad-op")
   | ["bspec", s] => match parseSpec st.optBuild s with
     | some s => both st (.builderSpecId s) | none => (st, "bad-op")
